@@ -16,8 +16,9 @@ use std::sync::Mutex;
 
 pub struct C15;
 
-pub const KINDS: [&str; 11] = [
-    "err1", "err", "errlong", "unknown", "empty", "unbalanced", "exit", "crash", "garbage", "extraclose", "tailclose",
+pub const KINDS: [&str; 12] = [
+    "err1", "err", "errlong", "errsemi", "unknown", "empty", "unbalanced", "exit", "crash", "garbage", "extraclose",
+    "tailclose",
 ];
 
 fn n_systems(tier: Tier) -> u64 {
@@ -208,7 +209,7 @@ impl Prop for C15 {
         "fault_enumeration"
     }
     fn rule(&self) -> String {
-        "fault enumeration: fixed generated systems (safe and unsafe) x engine {bmc, pdr with unsat-core generalisation, pdr without, a bare SolverContext session: declare/assert/check-sat/get-value/check-sat-assuming/get-unsat-assumptions/push/pop} ; a clean run under the reference solver's log gives the number N of response-bearing points (check-sat, check-sat-assuming, get-value, get-unsat-assumptions); then EVERY position n <= min(N, 12 quick / 80 thorough) x 11 fault kinds (error reply with a 1-character, a typical and a 4 kB message; `unknown`; empty line; unbalanced reply followed by exit; silent exit; crash with non-zero status; non-s-expression garbage; a lone `)` and `unsat)` - more closing than opening parentheses - with the solver staying alive) is injected at the n-th response. Each faulted run executes in a killable child process under a 90 s limit; system/engine pairs whose clean run takes more than 6 s are excluded and counted, so the limit is >= 15 x the clean time. The result must be an error or an Unknown verdict - never success/failure (the fault sits on an answer the run consumed), never a panic, never a timeout; for error replies the returned error must contain the solver's message verbatim. Non-trivial: position > 1 and a kind other than silent exit; distinct by (system, engine, position, kind).".into()
+        "fault enumeration: fixed generated systems (safe and unsafe) x engine {bmc, pdr with unsat-core generalisation, pdr without, a bare SolverContext session: declare/assert/check-sat/get-value/check-sat-assuming/get-unsat-assumptions/push/pop} ; a clean run under the reference solver's log gives the number N of response-bearing points (check-sat, check-sat-assuming, get-value, get-unsat-assumptions); then EVERY position n <= min(N, 12 quick / 80 thorough) x 12 fault kinds (error reply with a 1-character, a typical and a 4 kB message, and a message containing `;` and `|`; `unknown`; empty line; unbalanced reply followed by exit; silent exit; crash with non-zero status; non-s-expression garbage; a lone `)` and `unsat)` - more closing than opening parentheses - with the solver staying alive) is injected at the n-th response. Each faulted run executes in a killable child process under a 90 s limit; system/engine pairs whose clean run takes more than 6 s are excluded and counted, so the limit is >= 15 x the clean time. The result must be an error or an Unknown verdict - never success/failure (the fault sits on an answer the run consumed), never a panic, never a timeout; for error replies the returned error must contain the solver's message verbatim. Non-trivial: position > 1 and a kind other than silent exit; distinct by (system, engine, position, kind).".into()
     }
     fn assumptions(&self) -> Vec<String> {
         vec!["a run that needs more than 90 s after a fault (clean runs of the enumerated systems take < 6 s, typically < 1 s) is counted as blocking forever".into()]
@@ -293,6 +294,7 @@ impl Prop for C15 {
                     let expect = match kind {
                         "err1" => "x".to_string(),
                         "err" => "line 7 column 12: unknown constant foo@1 (declared here)".to_string(),
+                        "errsemi" => "resource limit exceeded; giving up |x;y| (retry later)".to_string(),
                         _ => (0..4096).map(|i| (b'a' + (i % 26) as u8) as char).collect(),
                     };
                     if outcome == "error" && !m.contains(&expect) {
